@@ -197,6 +197,20 @@ def gen_recurring_case(seed: int, rnd: random.Random) -> SchedCase:
         start = epoch + 1000 if p[1] is None else p[1]
         k0 = max(0, (epoch - start) // p[2])
         return any(filt_allow(zc.name, p[3], start + (k0 + k) * p[2]) for k in range(3000))
+
+    def has_occurrence(p) -> bool:
+        """a trigger none of whose occurrences is admitted (a group filter that excludes every member's time of day, a
+        time of day outside its own time window) makes the code search up to its bound of 99 999 candidates per member
+        before it raises InfiniteLoopDetectedError — tens of seconds, which is C16's subject, not C03's. The histories
+        of C03 use triggers with at least one admissible occurrence in the next 120 days (independent enumeration)."""
+        from oracle_prod import occurrences
+        if p[0] == 'group' and not all(has_occurrence(x) for x in p[2]):
+            return False        # a member without occurrences makes the whole group raise, after its full search
+        try:
+            occ = occurrences(zc.name, p, epoch, epoch + 120 * NS_DAY, epoch)
+        except Exception:  # noqa: BLE001
+            return True
+        return occ is None or len(occ) > 0
     # directed variants (two in five cases): a time of day inside the interval a clock change repeats / skips, with the
     # job created (or first executed, a little late) at a moment at which the run of that day is still ahead
     variant = {1: 'near_start', 2: 'twice_late', 3: 'later_backward', 4: 'later_forward'}.get(seed % 5)
@@ -243,7 +257,7 @@ def gen_recurring_case(seed: int, rnd: random.Random) -> SchedCase:
     for h in range(1, n + 1):
         p = snap(gen_producer(rnd, zc, epoch, rnd.randint(1, 2), filters=0.3, ops=('group',)))
         for _ in range(20):
-            if searchable(p):
+            if searchable(p) and has_occurrence(p):
                 break
             p = snap(gen_producer(rnd, zc, epoch, rnd.randint(1, 2), filters=0.3, ops=('group',)))
         else:
